@@ -4,6 +4,7 @@ pub mod js;
 pub mod kernels;
 pub mod rng;
 pub mod props {
+    pub mod c06;
     pub mod c07;
     pub mod c08;
     pub mod c09;
@@ -13,5 +14,5 @@ pub mod props {
 use harness::Prop;
 
 pub fn props() -> Vec<&'static Prop> {
-    vec![&props::c07::PROP, &props::c08::PROP, &props::c09::PROP, &props::c10::PROP]
+    vec![&props::c06::PROP, &props::c07::PROP, &props::c08::PROP, &props::c09::PROP, &props::c10::PROP]
 }
